@@ -103,7 +103,7 @@ var neutralisers = []neutraliser{
 		}
 		return l
 	}),
-	exprNeutraliser("range/result-is-not-a-list", func(n *Node) bool { return isCall(n, "range") },
+	exprNeutraliser("range/empty-range-is-truthy", func(n *Node) bool { return isCall(n, "range") },
 		func(n *Node) *Node { return copyOf(n) }),
 	exprNeutraliser("slice/list-slice-shares-storage", func(n *Node) bool { return n.K == "slice" },
 		func(n *Node) *Node { return copyOf(n) }),
@@ -192,45 +192,54 @@ func opsOf(p *Prog) string {
 	return "/" + uniqJoin(l)
 }
 
+// variants lists the rewritten programs of one neutraliser: all sites at once, then each single site.
+func variants(n neutraliser, p *Prog) []*Prog {
+	k := n.sites(p)
+	if k == 0 {
+		return nil
+	}
+	q := p.clone()
+	n.apply(q, -1)
+	out := []*Prog{q}
+	if k > 1 && k <= 6 {
+		for i := 0; i < k; i++ {
+			q := p.clone()
+			n.apply(q, i)
+			out = append(out, q)
+		}
+	}
+	return out
+}
+
 // classify returns the name of the first neutraliser that makes the languages agree on p
 // (applied to all its sites, or failing that to a single site), or "".
 func (e *Engine) classify(p *Prog, route string, minimal bool) string {
-	agree := func(q *Prog) bool {
-		pr, err := e.Py.Eval(Render(q, py, ""), q.Export)
-		if err != nil {
-			panic(err)
-		}
-		if !pr.OK || pr.Risk != "" {
-			return false
-		}
-		av, err := e.Asp.Eval(q, route)
-		if err != nil {
-			return false
-		}
-		d, err := diffVals(av, pr.Vals)
-		return err == nil && len(d) == 0
+	var all []*Prog
+	type cand struct {
+		name string
+		vs   []*Prog
 	}
+	var cands []cand
 	for _, n := range neutralisers {
-		k := n.sites(p)
-		if k == 0 || (n.late && !minimal) {
+		if n.late && !minimal {
+			continue
+		}
+		vs := variants(n, p)
+		if len(vs) == 0 {
 			continue
 		}
 		name := n.name
 		if n.keySuffix != nil {
 			name += n.keySuffix(p)
 		}
-		q := p.clone()
-		n.apply(q, -1)
-		if agree(q) {
-			return name
-		}
-		if k > 1 && k <= 6 {
-			for i := 0; i < k; i++ {
-				q := p.clone()
-				n.apply(q, i)
-				if agree(q) {
-					return name
-				}
+		cands = append(cands, cand{name, vs})
+		all = append(all, vs...)
+	}
+	e.prefetch(all)
+	for _, c := range cands {
+		for _, q := range c.vs {
+			if e.agrees(q, route) {
+				return c.name
 			}
 		}
 	}
